@@ -21,6 +21,8 @@ type Budget struct {
 	Used    uint32 // bitmask of one-shot user actions already taken
 }
 
+func (b Budget) String() string { return fmt.Sprintf("u%d/d%d/%x", b.User, b.Disturb, b.Used) }
+
 func (b Budget) dominatedBy(o Budget) bool {
 	return b.User <= o.User && b.Disturb <= o.Disturb && (b.Used|o.Used) == b.Used
 }
@@ -120,6 +122,8 @@ type Config struct {
 	StateCap    int
 	Monitors    []Monitor
 	Deadline    time.Time
+	// InjectOncePerControlState bounds WHERE user deviations are injected (see expand()).
+	InjectOncePerControlState bool
 	EarlyTicks  bool // thorough: ticks also while work is pending (counted as disturbance)
 	Verbose     bool
 }
@@ -145,6 +149,7 @@ type Explorer struct {
 	// Proj, when non-nil, collects distinct projections of the state (abstraction diagnostics).
 	Proj map[string]map[string]bool
 	lastProgress time.Time
+	injected     map[string]bool
 }
 
 var timeRe = regexp.MustCompile(`"T-?[0-9-]+"`)
@@ -162,7 +167,7 @@ type UserAction struct {
 
 func NewExplorer(w *World, cfg Config, r *lib.Report) *Explorer {
 	ex := &Explorer{W: w, Cfg: cfg, R: r, byKey: map[string][]int{}, Counters: map[string]int64{}, Terminals: map[string]int{},
-		violated: map[string]bool{}, actions: map[string]*UserAction{}, actionIndex: map[string]uint{}}
+		violated: map[string]bool{}, injected: map[string]bool{}, actions: map[string]*UserAction{}, actionIndex: map[string]uint{}}
 	for i, a := range AllUserActions() {
 		ex.actions[a.Name] = a
 		ex.actionIndex[a.Name] = uint(i)
@@ -422,7 +427,7 @@ func (ex *Explorer) Run(initBudget Budget) {
 			ex.R.NotExhaustive(fmt.Sprintf("scenario %s: state cap %d reached (frontier %d)", ex.Cfg.Sc.ID, ex.Cfg.StateCap, len(ex.frontier)))
 			break
 		}
-		if !ex.Cfg.Deadline.IsZero() && time.Now().After(ex.Cfg.Deadline) {
+		if !ex.Cfg.Deadline.IsZero() && time.VerifRealNow().After(ex.Cfg.Deadline) {
 			ex.Capped = true
 			ex.R.NotExhaustive(fmt.Sprintf("scenario %s: internal deadline reached at %d states (frontier %d)", ex.Cfg.Sc.ID, len(ex.nodes), len(ex.frontier)))
 			break
@@ -430,8 +435,8 @@ func (ex *Explorer) Run(initBudget Budget) {
 		id := ex.frontier[0]
 		ex.frontier = ex.frontier[1:]
 		ex.expand(ex.nodes[id])
-		if ex.Cfg.Verbose && time.Since(ex.lastProgress) > 5*time.Second {
-			ex.lastProgress = time.Now()
+		if ex.Cfg.Verbose && time.VerifRealNow().Sub(ex.lastProgress) > 5*time.Second {
+			ex.lastProgress = time.VerifRealNow()
 			fmt.Fprintf(os.Stderr, "progress %s: nodes=%d keys=%d frontier=%d depth=%d transitions=%d\n", ex.Cfg.Sc.ID, len(ex.nodes), len(ex.byKey), len(ex.frontier), ex.nodes[id].depth, ex.Transitions)
 		}
 	}
@@ -507,6 +512,18 @@ func (ex *Explorer) expand(n *node) {
 	}
 	for _, label := range es.user {
 		a := ex.actions[strings.TrimPrefix(label, "user:")]
+		if !a.Free && ex.Cfg.InjectOncePerControlState {
+			// deviation points: one representative (the BFS-first, i.e. shallowest) state per abstract control
+			// state and action; what follows the deviation is explored under every interleaving as usual
+			w.Restore(n.snap)
+			ck := label + "|" + n.budget.String() + "|" + ControlState(w, ex.Cfg.Sc)
+			if ex.injected[ck] {
+				ex.Counters["deviation points skipped (control state already used)"]++
+				continue
+			}
+			ex.injected[ck] = true
+			ex.Counters["deviation points used"]++
+		}
 		nb := n.budget
 		if !a.Free {
 			nb.User--
@@ -554,3 +571,66 @@ func (ex *Explorer) NodesCount() int { return len(ex.nodes) }
 
 // DistinctKeys returns the number of distinct canonical states.
 func (ex *Explorer) DistinctKeys() int { return len(ex.byKey) }
+
+// SampleTraces returns up to n traces of the explored graph (the deepest paths), as evidence samples.
+func (ex *Explorer) SampleTraces(n int) []interface{} {
+	var out []interface{}
+	if len(ex.nodes) == 0 {
+		return out
+	}
+	deepest := ex.nodes[0]
+	for _, nd := range ex.nodes {
+		if nd.depth > deepest.depth {
+			deepest = nd
+		}
+	}
+	out = append(out, ex.trace(deepest))
+	for _, nd := range ex.nodes {
+		if len(out) >= n {
+			break
+		}
+		if nd.budget.User == 0 && ex.Cfg.MaxUser > 0 && nd.quiesc {
+			out = append(out, ex.trace(nd))
+		}
+	}
+	return out
+}
+
+// Settle runs controllers and env models under the default schedule until nothing is enabled (used to reach
+// the scenario's initial Healthy state before exploration).
+func Settle(w *World) error {
+	for i := 0; i < 2000; i++ {
+		progressed := false
+		for _, c := range w.Ctls {
+			for _, k := range c.Queue.Ready() {
+				if c.Short == "D" {
+					w.SyncListers()
+				}
+				w.Reconcile(c, k, Fault{})
+				progressed = true
+			}
+		}
+		for _, e := range w.Env {
+			if st := e.Steps(w); len(st) > 0 {
+				if _, err := w.As("env", func() error { return e.Do(w, st[0]) }); err != nil {
+					return err
+				}
+				progressed = true
+			}
+		}
+		if progressed {
+			continue
+		}
+		pending := false
+		for _, c := range w.Ctls {
+			if c.Queue.NextDue() > 0 {
+				pending = true
+			}
+		}
+		if !pending {
+			return nil
+		}
+		w.Tick()
+	}
+	return fmt.Errorf("scenario did not settle")
+}
